@@ -977,6 +977,20 @@ class Interp:
         if s2 in ("FnOnce::call_once", "FnMut::call_mut", "Fn::call") and args:
             inner = args[1][1] if len(args) > 1 and args[1][0] == "tuple" else args[1:]
             return self.apply(args[0], list(inner), node, depth)
+        if s2 == "panic::catch_unwind" and args:
+            # Ok(what the closure returns) or Err(payload) if it panicked: both outcomes explored; what runs inside is bracketed in the trace
+            f = args[0]
+            if f[0] == "adt" and str(f[1]).endswith("AssertUnwindSafe") and f[3]:
+                f = dict(f[3]).get("0", f)
+            elif f[0] == "term" and T.short(f[1], 1) == "AssertUnwindSafe" and f[2]:
+                f = f[2][0]
+            if self.choose(2, "unwind") == 1:
+                self.trace.append(("unwind", node.get("sp")))
+                return err(("sym", "PANIC"))
+            self.trace.append(("catch-enter", node.get("sp")))
+            r = self.apply(f, [], node, depth)
+            self.trace.append(("catch-exit", node.get("sp")))
+            return ok(r)
         if s2 in ("mem::drop", "std::mem::drop", "hint::must_use"):
             return args[0] if s2.endswith("must_use") and args else ("unit",)
         if s2 in PANICS or fn.endswith(PANIC_FNS):
